@@ -224,6 +224,7 @@ func c38Run(c *fw.Ctx) error {
 		}
 	}
 	c.Extra("dense_range", fmt.Sprintf("[8192, %d) every chunk size", 8192+dense))
+	c38LiveRun(c, idx)
 	return nil
 }
 
@@ -231,7 +232,7 @@ func init() {
 	fw.Register("C38", fw.Spec{
 		Plan: func(tier string) fw.Plan {
 			p := fw.Plan{Batches: 8, TimeoutS: 600, MinNontrivial: 20000, Level: "exploration",
-				Rule:        "5 symmetric policies x {Sign, SignAndEncrypt} + None/None x chunk sizes: every value in [8192, 8192+4096) (quick) / [8192, 8192+65536) (thorough), then log-spaced and random sizes up to 2^24; per case the real SetMaximumBodySize, EncodeChunks and signAndEncrypt are run on a body of exactly the maximum (must fit, MessageSize = length, whole cipher blocks, size equal to the layout arithmetic), on maximum+1 forced into one chunk (must not fit in SignAndEncrypt) and on sampled smaller bodies; distinct = distinct (policy, mode, chunk size)",
+				Rule:        "5 symmetric policies x {Sign, SignAndEncrypt} + None/None x chunk sizes: every value in [8192, 8192+4096) (quick) / [8192, 8192+65536) (thorough), then log-spaced and random sizes up to 2^24; per case the real SetMaximumBodySize, EncodeChunks and signAndEncrypt are run on a body of exactly the maximum (must fit, MessageSize = length, whole cipher blocks, size equal to the layout arithmetic), on maximum+1 forced into one chunk (must not fit in SignAndEncrypt) and on sampled smaller bodies; distinct = distinct (policy, mode, chunk size); live part: 96 (quick) / 3000 (thorough) real client channels and real server channels (opened, a third of them renewed first) with different buffers in the two directions send a message of three chunks to the independent peer, which reports length and body bytes of every chunk: each chunk fits the negotiated size, and in SignAndEncrypt one body byte more than an intermediate chunk carries would not fit",
 				Assumptions: []string{"the in-process wrapper EncodeAndSecure repeats the loop of writeMessageChunks without the socket write (hook file uasc/verif_export.go)"}}
 			if tier == "thorough" {
 				p.Batches, p.TimeoutS, p.MinNontrivial = 16, 2400, 400000
@@ -240,6 +241,16 @@ func init() {
 		},
 		Run: c38Run,
 		Replay: func(c *fw.Ctx, raw json.RawMessage) error {
+			var live c38LiveCase
+			if json.Unmarshal(raw, &live) == nil && live.Side != "" {
+				live.Detail, live.Chunks = "", ""
+				if live.Side == "client-channel" {
+					c38LiveClient(c, live)
+				} else {
+					c38LiveServer(c, live)
+				}
+				return nil
+			}
 			var cs c38Case
 			if err := json.Unmarshal(raw, &cs); err != nil {
 				return err
